@@ -31,6 +31,11 @@ package middleware
 //@   ensures only-the-first-status-counts: old(gzw.codeSet) ==> statusWrites == old(statusWrites) && gzw.code == old(gzw.code)
 // ... and it hands the handler's deferred 2xx status on to the real writer, whether
 // or not a body was written (a 204 answered through the gzip wrapper stays a 204).
+// what was handed to the compressor is remembered until Close, which has to finish the
+// stream: a later (empty) write never makes the writer forget an earlier one
+//@ func (*gzipResponseWriter).Write [C20]
+//@   flag checks=-index,-assert
+//@   at gzip.Writer).Write$ compressed-bytes-are-remembered: gzw.written == old(gzw.written) + len(b)
 //@ func (*gzipResponseWriter).Close [C20]
 //@   modifies fields(gzw), statusWrites, lastStatus, respLast
 //@   ensures deferred-status-is-forwarded: old(gzw.code) / 100 == 2 ==> statusWrites == old(statusWrites) + 1 && lastStatus == old(gzw.code)
